@@ -233,6 +233,13 @@ def rebuiltMembers : List String := ["name", "line_info", "file_info"]
 def modelIntptrOperands : List String :=
   ["(intptr_t)PROG_STRING (pn->r.number)", "(intptr_t) 0", "(intptr_t) pn->r.expr"]
 
+/-- the pointers stored INSIDE the saved block (elements of the tables the 13 relocated members point at): the name of
+    every function, the program of every inherit entry, every string and every variable name.  They are meaningless in
+    the file; `load_binary` re-creates each one from the name sections / the loaded parents.  Everything else in the
+    block is an index, a count or a code offset. -/
+def modelBlockPointers : List String :=
+  ["compiler_function_t.name", "inherit_t.prog", "strings[]", "variable_table[]"]
+
 /-- statements of qSort + quickSort that NV/C17/QSort.lean mirrors -/
 def modelQsortStatements : Nat := 13
 
@@ -257,6 +264,15 @@ def sext16 (v : Nat) : Int := if v % 65536 < 32768 then (v % 65536 : Nat) else (
     (arithmetic shift of a signed char: never 15, so every listed F_SWITCH passes) -/
 def patchApplies (opcode typeByte : Nat) : Bool :=
   sext8 opcode == (Gen.C17.fSwitch : Int) && (sext8 typeByte) / 16 != 15
+
+/-- a 16-bit patch entry as `patch_out` / `patch_in` see it: `i = (<cast>) patches[--len]` with `short *patches` and
+    `int i` — through `(unsigned short)` the program offset itself, without it sign-extended -/
+def readPatchOffset (cast : String) (raw : Nat) : Int :=
+  if cast = "unsigned short" then ((raw % 65536 : Nat) : Int) else sext16 raw
+
+/-- a table bound read with COPY_SHORT into a variable of the given C type -/
+def readTableBound (ty : String) (raw : Nat) : Int :=
+  if ty = "unsigned short" then ((raw % 65536 : Nat) : Int) else sext16 raw
 
 /-- `store_prog_string (s)` for a string that is in the table: its index -/
 def indexOfPtr (strings : List Int) (p : Int) : Option Nat :=
@@ -289,7 +305,8 @@ structure BinFile where
   magic : String
   driverId : Nat
   configId : Nat
-  includes : List String
+  includes : List String       -- the include list without its '!' entries: the files that were read
+  absent : List String := []   -- the '!' entries: files an #include looked for first and did not find
   name : String
   inherits : List String       -- names as written: "dir/file.c"
   intact : Bool := true        -- the trailing checksum matches the bytes before it
@@ -311,7 +328,7 @@ structure LoadedProg where
   gen : Nat := 0                          -- which program block this is (a new number for every load of the name)
   loadTime : Nat := 0                     -- `ob->load_time` of the object that owns it
   linked : List (String × Nat) := []      -- `prog->inherit[i].prog`: name and block number of every inherited program
-  deriving Repr, BEq, Inhabited
+  deriving Repr, BEq, DecidableEq, Inhabited
 
 structure World where
   files : List (String × Nat) := []       -- path relative to the mudlib ↦ st_mtime (sources, includes, binaries)
@@ -400,9 +417,25 @@ def loadBinary (w : World) (name : String) : Decision :=
     else if b.configId ≠ w.configId then .stale "config"
     else if w.simulPath ≠ "" ∧ checkTimes w mtime w.simulPath = 0 then .stale "simul"
     else if b.includes.any (fun i => checkTimes w mtime i ≤ 0) then .stale "include"
+    else if b.absent.any (fun f => checkTimes w mtime f ≠ -1) then .stale "shadowed"
     else if b.name.length > 0 ∧ b.name ≠ name then .stale "name"
     else checkInherits w mtime b.inherits
   | _, _ => .stale "nobinary"
+
+/-- `inc_open` (lib/lpc/lex.c) for one #include directive: the candidates in search order (the file next to the
+    including file, then `<include dir>/<name>` for every include directory); the first one that exists is opened, and
+    — when it was not the first candidate — every candidate tried before it is noted as missing
+    (`add_program_missing_file`: a '!' entry in the include list of the binary) -/
+def incOpen (w : World) : List String → Option (String × List String)
+  | [] => none
+  | c :: rest =>
+    if (w.mtime c).isSome then some (c, [])
+    else (incOpen w rest).map (fun r => (r.1, c :: r.2))
+
+/-- the include list as the binary stores it: '!' entries are the files that were looked for and missing -/
+def readIncludes (l : List String) : List String := l.filter (fun i => !(i.startsWith "!"))
+def missingIncludes (l : List String) : List String :=
+  (l.filter (fun i => i.startsWith "!")).map (fun i => (i.drop 1).toString)
 
 /-- what the generator declares about a program: what a compile records -/
 structure ProgDecl where
@@ -440,14 +473,16 @@ def saveStep (s : Sys) (d : ProgDecl) (linked : List (String × Nat)) : Sys :=
   else
     let bp := binPath s.w d.name
     let b : BinFile := { magic := magicId, driverId := driverId, configId := s.w.configId,
-                         includes := d.includes, name := d.name, inherits := d.inherits }
+                         includes := readIncludes d.includes, absent := missingIncludes d.includes,
+                         name := d.name, inherits := d.inherits }
     { s with w := { s.w with files := (bp, s.vnow) :: s.w.files.filter (·.1 != bp),
                              bins := (bp, b) :: s.w.bins.filter (·.1 != bp) },
              vnow := s.vnow + 1, evs := Ev.sv d.name s.vnow d.includes :: s.evs }
 
 /-- the object exists now: a new program block, linked with the blocks of the inherited programs as loaded -/
 def enterProgram (s : Sys) (name : String) (d : ProgDecl) (linked : List (String × Nat)) : Sys :=
-  let lp : LoadedProg := { files := name :: d.includes, inherits := d.inherits, gen := s.gens + 1, loadTime := s.ctime,
+  let lp : LoadedProg := { files := name :: readIncludes d.includes, inherits := d.inherits, gen := s.gens + 1,
+                           loadTime := s.ctime,
                            linked := linked }
   { s with gens := s.gens + 1,
            w := { s.w with loaded := objName s.w name :: s.w.loaded,
